@@ -1150,6 +1150,29 @@ class Interp(Engine):
 
     def x_Delete(self, s, fr):
         for t in s.targets:
+            if isinstance(t, ast.Subscript) and isinstance(t.slice, ast.Slice) and t.slice.step is None:
+                # del lst[a:b] on a heap list (indices clamped like Python's slice semantics)
+                base = self.refine(self.eval(t.value, fr))
+                if not (base.kind == "ref" and self.static_cls(base) == "list"):
+                    raise Unsupported("del of a slice of a non-list")
+                p = self.p
+                items = p.hread("list.items", base.ref)
+                n = z3.Length(items)
+
+                def bound(e, default):
+                    if e is None:
+                        return default
+                    v = self.refine(self.eval(e, fr))
+                    if v.kind == "bool":
+                        v = self.num(v)
+                    if v.kind != "int":
+                        raise PyExc("TypeError", None, "slice indices must be integers")
+                    i = z3.If(v.t < 0, v.t + n, v.t)
+                    return z3.If(i < 0, 0, z3.If(i > n, n, i))
+                a, b = bound(t.slice.lower, z3.IntVal(0)), bound(t.slice.upper, n)
+                b = z3.If(b < a, a, b)
+                p.hwrite("list.items", base.ref, simp(z3.Concat(z3.SubSeq(items, 0, a), z3.SubSeq(items, b, n - b))))
+                continue
             if isinstance(t, ast.Subscript):
                 base = self.refine(self.eval(t.value, fr))
                 key = self.refine(self.eval(t.slice, fr))
@@ -1352,7 +1375,11 @@ class Interp(Engine):
             k = test if inv is not None else k
         if inv is None:
             return None
-        return lambda eng, s_, fr_: eng.loop_by_invariant(s_, fr_, inv, f"{qn.split(':')[-1]}#loop{k}")
+        wr = []
+        for key in ((qn, k), (qn.split(":", 1)[-1], k)):
+            if key in getattr(self, "loop_writes", {}):
+                wr = self.loop_writes[key]
+        return lambda eng, s_, fr_: eng.loop_by_invariant(s_, fr_, inv, f"{qn.split(':')[-1]}#loop{k}", wr)
 
     def eval_invariant(self, inv, fr):
         """the invariant is harness code; its parameters name locals of the function at the loop head"""
@@ -1390,7 +1417,7 @@ class Interp(Engine):
             return s_val(t)
         raise Unsupported(f"loop modifies {name} of kind {k}: not havocable")
 
-    def loop_by_invariant(self, s, fr, inv, label):
+    def loop_by_invariant(self, s, fr, inv, label, heap_writes=()):
         """Hoare while rule.  Obligations: <label>.entry, <label>.preserved.  The loop body must not
         write the heap (checked); locals assigned in the body are havoced."""
         p = self.p
@@ -1414,6 +1441,16 @@ class Interp(Engine):
             fr.locals[counter[1]] = lo
         elif not isinstance(s, ast.While):
             raise Unsupported("invariants are supported on while loops and `for x in range(...)` loops only")
+        self.keepalive.extend(p.heap.values())
+        prev_snap = getattr(self, "_loop_entry_snap", None)
+        self._loop_entry_snap = ("heap", dict(p.heap), p.nalloc)
+        try:
+            return self._loop_by_invariant(s, fr, inv, label, heap_writes, counter)
+        finally:
+            self._loop_entry_snap = prev_snap
+
+    def _loop_by_invariant(self, s, fr, inv, label, heap_writes, counter):
+        p = self.p
         p.obligations.append((f"{label}.invariant-on-entry", simp(self.eval_invariant(inv, fr)), ""))
         mod = set()
         for st in s.body:
@@ -1430,9 +1467,13 @@ class Interp(Engine):
                 continue            # first assigned inside the body
             kinds[n] = old.kind
             fr.locals[n] = self.havoc(old, n)
-        heap0 = dict(p.heap)
-        nalloc0 = p.nalloc
+        # heap fields the body may write (declared with @writes on the invariant) are arbitrary at the loop head
+        for fld in heap_writes:
+            p.fresh_ctr += 1
+            p.heap[fld] = z3.Const(f"Hh_{fld}!{p.fresh_ctr}", z3.ArraySort(z3.IntSort(), p.field_sort(fld)))
         p.assume(self.eval_invariant(inv, fr))
+        heap0 = dict(p.heap)            # (after the invariant: evaluating it may allocate ghost lists)
+        nalloc0 = p.nalloc
         if counter is not None:
             nxt = fr.locals[counter[1]]
             cond = (nxt.t < counter[2].t) if counter[3] == 1 else (nxt.t > counter[2].t)
@@ -1450,8 +1491,8 @@ class Interp(Engine):
                 pass
             for k, v in p.heap.items():
                 same = (v is heap0[k] or v.eq(heap0[k])) if k in heap0 else (z3.is_const(v) and v.decl().name().startswith("H0_"))
-                if not same:
-                    raise Unsupported(f"{label}: the loop body writes the heap field {k} (read-only loops only)")
+                if not same and k not in heap_writes:
+                    raise Unsupported(f"{label}: the loop body writes the heap field {k}, which the invariant does not declare (@writes)")
             if p.nalloc != nalloc0:
                 raise Unsupported(f"{label}: the loop body allocates (read-only loops only)")
             for n, k in kinds.items():
